@@ -287,7 +287,53 @@ def run_case(sh, case):
     sh.sample({"objects": len(results[0]), "names_head": sorted(results[0])[:25]})
 
 
+def run_adapter_case(sh, case):
+  """hierarchies in which the LIBRARY adds components of its own: connecting an RTL send interface to a CL method (or a CL caller
+  to an RTL queue) inserts an adapter component into the parent.  Their names obey the same rules: unique, evaluate back, and
+  the same construction code elaborated again - in this process, after other designs - gives the same set of names"""
+  from vlib import specgen as G
+  from vlib.checks.c17_queues import MIXED_SRC
+  rng = sh.rng("adapters", case)
+  mod = G.load_source(MIXED_SRC + """
+class Many(Component):
+  def construct(s, shapes):
+    s.go = InPort(1)
+    s.sys = [TopRTL2CL(Q, n, [False]) if shape == "rtl2cl" else TopCL2RTL(Q, n, [True], [False]) for (shape, Q, n) in shapes]
+    for k, (shape, Q, n) in enumerate(shapes):
+      if shape == "rtl2cl": s.sys[k].go //= s.go
+""", "c14ad")
+  try:
+    shapes = [(sh_, getattr(mod, rng.choice(["Normal", "Pipe", "Bypass"]) + ("QueueCL" if sh_ == "rtl2cl" else "QueueRTL")), rng.randrange(1, 4))
+              for sh_ in [rng.choice(["rtl2cl", "cl2rtl"]) for _ in range(rng.randrange(1, 4))]]
+    results = []
+    for rep in range(2):
+      top = mod.Many(shapes); top.elaborate()
+      names = {}
+      for o in top.get_all_object_filter(lambda x: True):
+        r = repr(o)
+        if r in names and names[r] is not o:
+          sh.violation("two-objects-share-a-name", {"name": r, "stream": "adapters"}, case=("adapters", case)); return
+        names[r] = o
+      for r, o in names.items():
+        sh.count("objects_roundtripped"); sh.count("adapter_hierarchy_objects")
+        try: back = eval(r, {"s": top})
+        except Exception as e:
+          sh.violation("eval-of-name-raised", {"name": r, "error": repr(e)[:200], "stream": "adapters"}, case=("adapters", case)); return
+        if back is not o:
+          sh.violation("eval-of-name-yields-other-object", {"name": r, "stream": "adapters"}, case=("adapters", case)); return
+      results.append(set(names))
+    sh.count("reelaborations"); sh.count("adapter_hierarchies"); sh.count("evaluations")
+    if results[0] != results[1]:
+      sh.violation("re-elaboration-gives-different-names", {"only_first": sorted(results[0] - results[1])[:5], "only_second": sorted(results[1] - results[0])[:5],
+                   "stream": "adapters", "shapes": [(a, q.__name__, n) for a, q, n in shapes]}, case=("adapters", case))
+    sh.fp("adapters", tuple((a, q.__name__, n) for a, q, n in shapes))
+  finally:
+    G.unload(mod)
+
+
 def run_shard(sh):
+  for case in range(4):
+    if sh.only is None: run_adapter_case(sh, case)
   for case in range(sh.params["cases"]):
     if sh.only is not None and str(case) != str(sh.only).strip('"'):
       continue
